@@ -494,7 +494,7 @@ pub fn execute(plan: Plan, full: bool) -> RunResult {
 pub fn run_main(full: bool) -> i32 {
     let mut text = String::new();
     std::io::stdin().read_to_string(&mut text).expect("stdin");
-    let plan: Plan = match serde_json::from_str(&text) {
+    let plan: Plan = match crate::report::from_json(&text) {
         Ok(p) => p,
         Err(e) => {
             eprintln!("harness error: bad plan: {}", e);
@@ -531,7 +531,7 @@ pub struct ColdRes {
 pub fn cold_main() -> i32 {
     let mut text = String::new();
     std::io::stdin().read_to_string(&mut text).expect("stdin");
-    let req: ColdReq = match serde_json::from_str(&text) {
+    let req: ColdReq = match crate::report::from_json(&text) {
         Ok(p) => p,
         Err(e) => {
             eprintln!("harness error: bad cold request: {}", e);
@@ -663,7 +663,7 @@ pub fn sweep_family(seed: u64, f: u64, out: &mut SweepOut) {
 pub fn sweep_main() -> i32 {
     let mut text = String::new();
     std::io::stdin().read_to_string(&mut text).expect("stdin");
-    let req: SweepReq = match serde_json::from_str(&text) {
+    let req: SweepReq = match crate::report::from_json(&text) {
         Ok(p) => p,
         Err(e) => {
             eprintln!("harness error: bad sweep request: {}", e);
@@ -753,7 +753,7 @@ fn run_plan_once(plan: &Plan, full: bool, timeout_s: u64) -> Result<RunResult, S
     let input = serde_json::to_string(plan).unwrap();
     let args: Vec<&str> = if full { vec!["run", "--full"] } else { vec!["run"] };
     let out = spawn_with_input(&args, &input, timeout_s)?;
-    serde_json::from_str::<RunResult>(out.trim()).map_err(|e| format!("bad run output: {} ({})", e, out.chars().take(300).collect::<String>()))
+    crate::report::from_json::<RunResult>(out.trim()).map_err(|e| format!("bad run output: {} ({})", e, out.chars().take(300).collect::<String>()))
 }
 
 /// Err("timeout") only if the run also stalls with atomic operations; Err("crashed: …") if the run
@@ -794,7 +794,7 @@ pub fn run_cold(req: &ColdReq) -> Result<ColdRes, String> {
     let mut last = String::new();
     for _ in 0..2 {
         match spawn_with_input(&["cold"], &input, 30) {
-            Ok(out) => return serde_json::from_str::<ColdRes>(out.trim()).map_err(|e| format!("bad cold output: {}", e)),
+            Ok(out) => return crate::report::from_json::<ColdRes>(out.trim()).map_err(|e| format!("bad cold output: {}", e)),
             Err(e) => last = e,
         }
     }
@@ -1658,7 +1658,7 @@ pub fn drive(tier_name: &str, seed: u64, workers: usize) -> i32 {
     {
         let chunk = 2000u64;
         let reqs: Vec<SweepReq> = (0..(sweep_families + chunk - 1) / chunk).map(|ci| SweepReq { seed, from: ci * chunk, to: ((ci + 1) * chunk).min(sweep_families) }).collect();
-        let outs = par_map(&reqs, workers, |r| spawn_with_input(&["c12-sweep"], &serde_json::to_string(r).unwrap(), 600).and_then(|o| serde_json::from_str::<SweepOut>(o.trim()).map_err(|e| e.to_string())));
+        let outs = par_map(&reqs, workers, |r| spawn_with_input(&["c12-sweep"], &serde_json::to_string(r).unwrap(), 600).and_then(|o| crate::report::from_json::<SweepOut>(o.trim()).map_err(|e| e.to_string())));
         for o in outs {
             match o {
                 Ok(o) => {
@@ -1967,7 +1967,7 @@ pub fn drive(tier_name: &str, seed: u64, workers: usize) -> i32 {
     if std::env::var("VERIF_MIRI_FAILED").is_ok() {
         violations += 1;
     }
-    let miri_summary: Value = std::env::var("VERIF_MIRI_SUMMARY").ok().and_then(|p| std::fs::read_to_string(p).ok()).and_then(|t| serde_json::from_str(&t).ok()).unwrap_or(json!({"skipped": "not run"}));
+    let miri_summary: Value = std::env::var("VERIF_MIRI_SUMMARY").ok().and_then(|p| std::fs::read_to_string(p).ok()).and_then(|t| crate::report::from_json(&t).ok()).unwrap_or(json!({"skipped": "not run"}));
     let wall = t0.elapsed().as_secs_f64();
     let site_names = site_names();
     let named = |v: &Vec<u64>| -> BTreeMap<String, u64> { v.iter().enumerate().filter(|(_, n)| **n > 0).map(|(i, n)| (site_names.get(&(i as u32)).cloned().unwrap_or(format!("site{}", i)), *n)).collect() };
